@@ -17,6 +17,7 @@ import (
 	"runtime"
 	"slices"
 	"sync"
+	"sync/atomic"
 	"time"
 	"unsafe"
 )
@@ -184,6 +185,7 @@ func taskMain(t *Task, fn func()) {
 func (t *Task) finish() {
 	if t.killed {
 		t.tell(request{kind: rqKilled})
+		atomic.AddInt64(&sch.liveG, -1)
 		sch.join.Done()
 		return
 	}
@@ -192,6 +194,7 @@ func (t *Task) finish() {
 	} else {
 		t.tell(request{kind: rqExit})
 	}
+	atomic.AddInt64(&sch.liveG, -1)
 	sch.join.Done()
 }
 
@@ -381,6 +384,41 @@ func (m *Mutex) Unlock() {
 //go:norace
 func (m *Mutex) TryLock() bool {
 	panic("simrt: Mutex.TryLock is not modelled")
+}
+
+// Pool replaces sync.Pool with a deterministic model: a LIFO free list (returning the most
+// recently put object, or New(), is one of the behaviours sync.Pool allows; dropping objects
+// at a garbage collection is not modelled). The free list is guarded by a real mutex, so the
+// race detector sees a happens-before edge from every Put to every later Get - slightly more
+// than the real pool guarantees (it orders only the Put and the Get of the same object).
+type Pool struct {
+	New   func() any
+	mu    sync.Mutex
+	items []any
+}
+
+func (p *Pool) Get() any {
+	p.mu.Lock()
+	var x any
+	if n := len(p.items); n > 0 {
+		x = p.items[n-1]
+		p.items[n-1] = nil
+		p.items = p.items[:n-1]
+	}
+	p.mu.Unlock()
+	if x == nil && p.New != nil {
+		x = p.New()
+	}
+	return x
+}
+
+func (p *Pool) Put(x any) {
+	if x == nil {
+		return
+	}
+	p.mu.Lock()
+	p.items = append(p.items, x)
+	p.mu.Unlock()
 }
 
 // Now replaces time.Now.
